@@ -179,6 +179,9 @@ func run(id, mode string, cfg propCfg, seed uint64, runDir string) int {
 			workers = 16
 		}
 	}
+	if v, err := strconv.Atoi(os.Getenv("VERIF_WORKERS")); err == nil && v > 0 && v <= 64 {
+		workers = v
+	}
 	seeds := []uint64{seed}
 	perSeedDL := cfg.QuickDL
 	count := cfg.QuickRuns
